@@ -133,7 +133,8 @@ func (runInfo *runInfoStruct) runSingleStmt() {
 		if runInfo.err != nil {
 			return
 		}
-		runInfo.err = newStringError(stmt, fmt.Sprint(runInfo.rv.Interface()))
+		// newStringError returns nil for an empty message, throw always raises
+		runInfo.err = &Error{Message: fmt.Sprint(runInfo.rv.Interface()), Pos: stmt.Position()}
 
 	// ModuleStmt
 	case *ast.ModuleStmt:
